@@ -1,4 +1,4 @@
-package main
+package c14
 
 // C14 — projects are immutable values: derivations copy, never alias or mutate.
 //
